@@ -2,6 +2,7 @@
 period-tiling loops of ManifestContext.  create_period / DashTiming(...) / total_duration are abstract callees."""
 import z3
 from pyvc.vals import *          # noqa: F401,F403
+from pyvc.engine import PyRaise
 from pyvc.contract import Contract, Loop, Lemma, Group
 from pyvc.models.strings import FString
 from contracts import rep as REPG
@@ -25,6 +26,10 @@ def world():
     tr = floordiv(w['ps_us'] * w['tref'], z3.IntVal(SEC))
     w['T0'] = z3.Int('T0')
     w['T0_def'] = w['T0'] == z3.If(w['ts'] != w['tref'], floordiv(tr * w['ts'], w['tref']), tr)
+    for nm in ('ppk', 'mps_pk', 'period_parent_pk', 'stream_pk', 'seg_num'):
+        w[nm] = z3.Int(nm)
+    for nm in ('period_missing', 'bad_options', 'media_missing'):
+        w[nm] = z3.Bool(nm)
     w['__ctors__'] = dict(w['__ctors__'])
     w['__ctors__'].update({'SegmentPosition': lambda eng, a, kw: tuple(a)})
     return w
@@ -116,6 +121,85 @@ def mps_gms(kind, content_type):
         witness_terms=callee.witness_terms,
     )
 
+
+# ----------------------------------------------------------------------------- period route ownership (C12 mechanism 4)
+def mps_get_contract():
+    """ServeMpsMedia.get: a period that does not exist or belongs to another multi-period stream is 404; bad options
+    400; unknown media file 404; otherwise the segment is generated from THAT period's stream and media file, with
+    flask.g.period / flask.g.stream set to it."""
+    def env(w):
+        return {'self': Obj('ServeMpsMedia', {}), 'mode': 'vod', 'mps_name': Opaque('mps'), 'ppk': z3.Int('ppk'),
+                'filename': Opaque('filename'), 'ext': 'mp4', 'segment_num': z3.Int('seg_num'), 'segment_time': None,
+                'current_mps': Obj('MultiPeriodStream', {'pk': z3.Int('mps_pk')}),
+                '__g__': Obj('FlaskG', {'period': None, 'stream': None})}
+
+    def period_get(eng, e, a, kw):
+        stream = Obj('Stream', {'pk': z3.Int('stream_pk')})
+        return Opt(z3.Bool('period_missing'), Obj('Period', {'parent_pk': z3.Int('period_parent_pk'), 'stream': stream,
+                                                              'pk': kw['pk']}))
+
+    def calculate_options(eng, e, a, kw):
+        if eng.branch(z3.Bool('bad_options')):
+            raise PyRaise('ValueError')
+        return Obj('OptionsContainer', {'for_stream': a[2]})
+
+    def media_get(eng, e, a, kw):
+        return Opt(z3.Bool('media_missing'), Obj('MediaFile', {'stream_pk': kw['stream_pk'], 'name': kw['name']}))
+
+    def generate(eng, e, a, kw):
+        g = eng.lookup('__g__')
+        return Obj('Response', {'status': 200, 'generated_for': kw, 'g_period': g.f['period'], 'g_stream': g.f['stream']})
+
+    def make_response(eng, e, a, kw):
+        return Obj('Response', {'status': a[1], 'body': a[0]})
+    owned = '(not period_missing and period_parent_pk == mps_pk)'
+    return Contract(
+        key=f'{MRQ}:ServeMpsMedia.get', props=['C12', 'C16'], env=env,
+        models={'models.Period.get': period_get, 'self.calculate_options': calculate_options, 'models.MediaFile.get': media_get,
+                'self.generate_media_segment': generate, 'flask.make_response': make_response,
+                'attr:flask.g': lambda eng: eng.lookup('__g__'), 'attr:flask.request.args': lambda eng: Opaque('args')},
+        ensures=[
+            ('foreign_period_404', f'(result.status == 404) if not {owned} else True'),
+            ('bad_options_400', f'(result.status == 400) if ({owned} and bad_options) else True'),
+            ('unknown_media_404', f'(result.status == 404) if ({owned} and not bad_options and media_missing) else True'),
+            ('generated_from_the_period', f"(result.status == 200 and result.generated_for['stream'].pk == stream_pk and "
+                                          "result.generated_for['media_file'].stream_pk == stream_pk and "
+                                          "result.generated_for['seg_num'] == seg_num and is_none(result.generated_for['seg_time']) and "
+                                          "result.g_period.pk == ppk and result.g_stream.pk == stream_pk) "
+                                          f'if ({owned} and not bad_options and not media_missing) else True'),
+        ],
+        canaries=['result.status == 404'],
+        witness_terms=lambda w: (lambda ev: dict({k: ev(z3.Int(k)) for k in ('ppk', 'mps_pk', 'period_parent_pk', 'stream_pk', 'seg_num')},
+                                                 **{k: ev(z3.Bool(k)) for k in ('period_missing', 'bad_options', 'media_missing')})),
+    )
+
+
+MPS_GET = mps_get_contract()
+
+
+def mps_init_get_contract():
+    """ServeMpsInitSeg.get: same ownership / option / media checks, then the init segment of THAT period's media file"""
+    base = MPS_GET
+
+    def env(w):
+        e = base.env(w)
+        e['self'] = Obj('ServeMpsInitSeg', {})
+        del e['segment_num'], e['segment_time']
+        return e
+    m = dict(base.models)
+    m['self.generate_init_segment'] = lambda eng, e, a, kw: Obj('Response', {'status': 200, 'media': a[0], 'mode': a[1], 'options': a[2]})
+    owned = '(not period_missing and period_parent_pk == mps_pk)'
+    return Contract(
+        key=f'{MRQ}:ServeMpsInitSeg.get', props=['C12', 'C16'], env=env, models=m,
+        ensures=[e for e in base.ensures if e[0] != 'generated_from_the_period'] +
+                [('init_of_the_period', f"(result.status == 200 and result.media.stream_pk == stream_pk and result.mode == 'vod' and "
+                                        f"result.options.for_stream.pk == stream_pk) if ({owned} and not bad_options and not media_missing) else True")],
+        canaries=['result.status == 404'],
+        witness_terms=base.witness_terms,
+    )
+
+
+MPS_INIT_GET = mps_init_get_contract()
 
 MPS_GMS = [mps_gms('number', 'video'), mps_gms('number', 'audio')]      # $Time$ requests: known finding C12-mps-time-request-asserts
 
@@ -252,7 +336,7 @@ LIVE_PERIODS = Contract(
 
 
 GROUP = Group(
-    name='mps', world=world, contracts=MPS_INDEX + [VOD_PERIODS, LIVE_PERIODS] + MPS_GMS,
+    name='mps', world=world, contracts=MPS_INDEX + [VOD_PERIODS, LIVE_PERIODS] + MPS_GMS + [MPS_GET, MPS_INIT_GET],
     lemmas=[Lemma('mps_decode_times', ['C12'], lemma_mps_decode_times)],
     assumptions=[
         'C12: create_period returns a Period whose duration is the stored duration of the definition it was given; '
